@@ -7,8 +7,10 @@ import (
 	"flag"
 	"fmt"
 	"math/rand"
+	"runtime"
 	"sort"
 	"sync"
+	"sync/atomic"
 	"unsafe"
 
 	"github.com/lesismal/nbio/mempool"
@@ -375,6 +377,10 @@ func runCase(r *h.Run, c caseT) {
 		r.Max("max_live_buffers", int64(pg.maxLive))
 		return
 	}
+	if c.Mode == "handoff" {
+		runHandoff(r, spec, a, c)
+		return
+	}
 	// concurrent: goroutines own their buffers, share the allocator
 	var wg sync.WaitGroup
 	pgs := make([]*prog, c.Goroutines)
@@ -399,6 +405,122 @@ func runCase(r *h.Run, c caseT) {
 		multi = multi || pg.multi
 	}
 	if ok && grew && reused && multi {
+		r.Nontrivial(fmt.Sprintf("%s/%s/%d", c.Alloc, c.Mode, c.Index))
+	}
+}
+
+// runHandoff: buffers are allocated by one goroutine and checked, grown and freed
+// by another (what nbio does: the poller allocates, an executor goroutine frees).
+// With per-P pools a Malloc then regularly takes a header another goroutine has
+// just put back; whatever Free does to a buffer after it has handed it to the pool
+// hits a buffer that is live again. Every buffer carries its own pattern; its
+// length and contents are checked right after Malloc, on receipt, after a short
+// hold and after an optional Append, before it is freed.
+func runHandoff(r *h.Run, spec *allocSpec, a mempool.Allocator, c caseT) {
+	type item struct {
+		p  *[]byte
+		id int
+		n  int
+	}
+	var failed int32
+	fail := func(sig, detail string) {
+		if atomic.CompareAndSwapInt32(&failed, 0, 1) {
+			r.Violate("c20:"+spec.Name+":handoff:"+sig, detail, c)
+		}
+	}
+	check := func(it item, when string) bool {
+		b := *it.p
+		if len(b) != it.n {
+			fail("length-of-live-buffer-changed", fmt.Sprintf("buffer #%d: Malloc(%d), length %d %s", it.id, it.n, len(b), when))
+			return false
+		}
+		for i := range b {
+			if b[i] != pat(it.id, i) {
+				fail("contents-of-live-buffer-changed", fmt.Sprintf("buffer #%d (%d bytes): byte %d is %#x, written %#x, %s", it.id, it.n, i, b[i], pat(it.id, i), when))
+				return false
+			}
+		}
+		return true
+	}
+	ch := make(chan item, 32)
+	var prod, cons sync.WaitGroup
+	var pairs int64
+	for g := 0; g < c.Goroutines; g++ {
+		prod.Add(1)
+		go func(g int) {
+			defer prod.Done()
+			defer func() {
+				if e := recover(); e != nil {
+					fail("panic", fmt.Sprintf("allocator call panicked: %v", e))
+				}
+			}()
+			rng := r.Rand(fmt.Sprintf("c20-handoff-%s-p%d", c.Alloc, g), c.Index)
+			for i := 0; i < c.Ops && atomic.LoadInt32(&failed) == 0; i++ {
+				n := 1 + rng.Intn(256)
+				if i%64 == 0 {
+					n = 1 + rng.Intn(c.MaxSize)
+				}
+				it := item{p: a.Malloc(n), id: g*10000019 + i, n: n}
+				if len(*it.p) != n {
+					fail("malloc-length", fmt.Sprintf("Malloc(%d) returned a buffer of length %d", n, len(*it.p)))
+					return
+				}
+				fill(*it.p, it.id, 0)
+				if !check(it, "right after Malloc and fill") {
+					return
+				}
+				ch <- it
+			}
+		}(g)
+		cons.Add(1)
+		go func(g int) {
+			defer cons.Done()
+			defer func() {
+				if e := recover(); e != nil {
+					fail("panic", fmt.Sprintf("allocator call panicked: %v", e))
+				}
+				for range ch {
+				}
+			}()
+			k := 0
+			for it := range ch {
+				k++
+				if atomic.LoadInt32(&failed) != 0 {
+					continue
+				}
+				if !check(it, "when its consumer received it") {
+					continue
+				}
+				if k%4 == 0 {
+					runtime.Gosched()
+					if !check(it, "after a yield in its consumer") {
+						continue
+					}
+				}
+				if k%8 == 0 {
+					add := 1 + k%97
+					old := it.n
+					it.p = a.Append(it.p, make([]byte, add)...)
+					it.n += add
+					if len(*it.p) != it.n {
+						fail("append-length", fmt.Sprintf("Append of %d bytes to a buffer of %d: length %d", add, old, len(*it.p)))
+						continue
+					}
+					fill(*it.p, it.id, old)
+					if !check(it, "after Append in its consumer") {
+						continue
+					}
+				}
+				a.Free(it.p)
+				atomic.AddInt64(&pairs, 1)
+			}
+		}(g)
+	}
+	prod.Wait()
+	close(ch)
+	cons.Wait()
+	r.Count("handoff_malloc_free_pairs", atomic.LoadInt64(&pairs))
+	if atomic.LoadInt32(&failed) == 0 {
 		r.Nontrivial(fmt.Sprintf("%s/%s/%d", c.Alloc, c.Mode, c.Index))
 	}
 }
@@ -454,6 +576,19 @@ func main() {
 			if i == 0 {
 				r.Sample(c)
 			}
+		}
+		hops := r.N(20000, 100000)
+		if *concOnly {
+			hops = 5000 // the race-detector phase
+		}
+		for i := 0; i < r.N(12, 40); i++ {
+			idx++
+			if !r.Mine(idx) {
+				continue
+			}
+			c := caseT{Alloc: specs[si].Name, Mode: "handoff", Index: i, Ops: hops, MaxSize: 1 << 14, Goroutines: 8}
+			r.Begin(c)
+			runCase(r, c)
 		}
 	}
 }
